@@ -661,6 +661,12 @@ pub fn run_campaign<P: Property>(prop: &P, tier: Tier, seed: u64) -> i32 {
     coverage.insert("notes".into(), json!(total.notes));
     coverage.insert("generator_health".into(), json!(health));
     coverage.insert("workers".into(), json!(workers));
+    // the coverage-guided stage of the thorough tier (fuzz.sh) hands over its counters
+    if let Ok(path) = std::env::var("PV_FUZZ_SUMMARY") {
+        if let Some(v) = std::fs::read_to_string(&path).ok().and_then(|t| serde_json::from_str::<Value>(&t).ok()) {
+            let _ = coverage.insert("libfuzzer_stage".into(), v);
+        }
+    }
     for (k, v) in prop.extra_coverage(tier) {
         coverage.insert(k, v);
     }
@@ -783,7 +789,22 @@ pub fn fuzz_one<P: Property>(prop: &P, known: &[KnownRecord], data: &[u8]) -> Fu
         return FuzzOutcome::NoCase;
     }
     let cfg = PtConfig { failure_persistence: None, ..PtConfig::default() };
-    let mut runner = TestRunner::new_with_rng(cfg, TestRng::from_seed(RngAlgorithm::PassThrough, data));
+    // proptest's pass-through RNG yields zeros once the input is used up, on which rand's rejection
+    // sampling of ranges never terminates; a fixed pseudo-random tail follows the fuzzer's bytes instead
+    static TAIL: std::sync::OnceLock<Vec<u8>> = std::sync::OnceLock::new();
+    let tail = TAIL.get_or_init(|| {
+        let mut x = 0x5EED_F00D_u64;
+        (0..(256 << 10) / 8)
+            .flat_map(|_| {
+                x = splitmix64(x);
+                x.to_le_bytes()
+            })
+            .collect()
+    });
+    let mut bytes = Vec::with_capacity(data.len() + tail.len());
+    bytes.extend_from_slice(data);
+    bytes.extend_from_slice(tail);
+    let mut runner = TestRunner::new_with_rng(cfg, TestRng::from_seed(RngAlgorithm::PassThrough, &bytes));
     let strat = prop.strategy(Tier::Thorough);
     let Ok(tree) = strat.new_tree(&mut runner) else {
         return FuzzOutcome::NoCase;
